@@ -135,6 +135,12 @@ impl Txtpp {
         }
 
         loop {
+            #[cfg(feature = "verif")]
+            crate::verif::coordinator_poll(
+                self.progress.done_count,
+                self.progress.total_count,
+                false,
+            );
             let data = match self.recv.try_recv() {
                 Ok(data) => data,
                 Err(TryRecvError::Empty) => {
@@ -142,6 +148,10 @@ impl Txtpp {
                         break;
                     }
                     // no data available, wait for a bit
+                    #[cfg(feature = "verif")]
+                    if crate::verif::coordinator_idle(100) {
+                        continue;
+                    }
                     std::thread::sleep(std::time::Duration::from_millis(100));
                     continue;
                 }
@@ -152,6 +162,32 @@ impl Txtpp {
                 }
             };
 
+            #[cfg(feature = "verif")]
+            match &data {
+                TaskResult::ScanDir(r) => crate::verif::result_received(
+                    &if r.is_ok() {
+                        crate::verif::Outcome::ScanOk
+                    } else {
+                        crate::verif::Outcome::Err
+                    },
+                    std::path::Path::new(""),
+                ),
+                TaskResult::Preprocess(Ok(PpResult::Ok(f))) => {
+                    crate::verif::result_received(&crate::verif::Outcome::Done, f.as_path())
+                }
+                TaskResult::Preprocess(Ok(PpResult::HasDeps(f, d))) => {
+                    crate::verif::result_received(
+                        &crate::verif::Outcome::HasDeps(
+                            d.iter().map(|x| x.as_path().to_path_buf()).collect(),
+                        ),
+                        f.as_path(),
+                    )
+                }
+                TaskResult::Preprocess(Err(_)) => crate::verif::result_received(
+                    &crate::verif::Outcome::Err,
+                    std::path::Path::new(""),
+                ),
+            }
             let _ = self.progress.add_done(1);
 
             match data {
@@ -162,6 +198,15 @@ impl Txtpp {
                         e.change_context(TxtppError)
                             .attach_printable("cannot scan directory")
                     })?;
+                    #[cfg(feature = "verif")]
+                    let directory = Directory {
+                        files: crate::verif::order("scan.files", directory.files, |p| {
+                            p.as_path().to_path_buf()
+                        }),
+                        subdirs: crate::verif::order("scan.subdirs", directory.subdirs, |p| {
+                            p.as_path().to_path_buf()
+                        }),
+                    };
                     let _ = self.progress.add_total(directory.subdirs.len());
                     for file in directory.files {
                         self.execute_file(file, true)?;
@@ -202,6 +247,10 @@ impl Txtpp {
                             );
                             file_count += 1;
                             let files = dep_mgr.notify_finish(&input);
+                            #[cfg(feature = "verif")]
+                            let files = crate::verif::order("released", files, |p| {
+                                p.as_path().to_path_buf()
+                            });
                             for file in files {
                                 self.execute_file(file, false)?;
                             }
@@ -244,8 +293,18 @@ impl Txtpp {
             .print_status(verbs::SCANNING, &dir.to_string(), Color::Yellow, true);
         let send = self.send.clone();
         log::info!("scanning directory: {dir}");
+        #[cfg(feature = "verif")]
+        let verif_task = crate::verif::task_spawned(crate::verif::TaskKind::ScanDir, dir.as_path());
         self.threadpool.execute(move || {
+            #[cfg(feature = "verif")]
+            let verif_guard = verif_task.begin();
             let result = scan_dir(&dir, recursive);
+            #[cfg(feature = "verif")]
+            verif_guard.end(if result.is_ok() {
+                crate::verif::Outcome::ScanOk
+            } else {
+                crate::verif::Outcome::Err
+            });
             send.send(TaskResult::ScanDir(result))
                 .expect("cannot send result")
         });
@@ -278,8 +337,27 @@ impl Txtpp {
         let mode = self.config.mode.clone();
         let trailing_newline = self.config.trailing_newline;
         log::info!("processing file: {file}");
+        #[cfg(feature = "verif")]
+        let verif_task = crate::verif::task_spawned(
+            if is_first_pass {
+                crate::verif::TaskKind::FirstPass
+            } else {
+                crate::verif::TaskKind::SecondPass
+            },
+            file.as_path(),
+        );
         self.threadpool.execute(move || {
+            #[cfg(feature = "verif")]
+            let verif_guard = verif_task.begin();
             let result = preprocess(&shell, &file, mode, is_first_pass, trailing_newline);
+            #[cfg(feature = "verif")]
+            verif_guard.end(match &result {
+                Ok(PpResult::Ok(_)) => crate::verif::Outcome::Done,
+                Ok(PpResult::HasDeps(_, d)) => crate::verif::Outcome::HasDeps(
+                    d.iter().map(|x| x.as_path().to_path_buf()).collect(),
+                ),
+                Err(_) => crate::verif::Outcome::Err,
+            });
             send.send(TaskResult::Preprocess(result))
                 .expect("cannot send result")
         });
@@ -290,9 +368,19 @@ impl Txtpp {
 impl Drop for Txtpp {
     fn drop(&mut self) {
         log::info!("cleaning up txtpp");
+        #[cfg(feature = "verif")]
+        crate::verif::join(true);
         self.threadpool.join();
+        #[cfg(feature = "verif")]
+        crate::verif::join(false);
         // wait for all workers to finish sending their last results, which we will ignore
         loop {
+            #[cfg(feature = "verif")]
+            crate::verif::coordinator_poll(
+                self.progress.done_count,
+                self.progress.total_count,
+                true,
+            );
             match self.recv.try_recv() {
                 Ok(_) => {
                     self.progress.add_done_quiet(1);
@@ -302,6 +390,10 @@ impl Drop for Txtpp {
                         break;
                     }
                     // no data available, wait for a bit
+                    #[cfg(feature = "verif")]
+                    if crate::verif::coordinator_idle(100) {
+                        continue;
+                    }
                     std::thread::sleep(std::time::Duration::from_millis(100));
                     continue;
                 }
@@ -318,4 +410,16 @@ impl Drop for Txtpp {
 enum TaskResult {
     ScanDir(Result<Directory, PathError>),
     Preprocess(Result<PpResult, PpError>),
+}
+
+#[cfg(feature = "verif")]
+pub fn verif_preprocess(
+    shell: &Shell,
+    file: &AbsPath,
+    mode: Mode,
+    trailing_newline: bool,
+) -> std::result::Result<(), String> {
+    preprocess(shell, file, mode, false, trailing_newline)
+        .map(|_| ())
+        .map_err(|e| format!("{e:?}"))
 }
